@@ -126,12 +126,22 @@ def run(ctx):
             order = rnd.choice(orders)
             behs.append({'order': order, 'calls': expr_history(rnd, order, rnd.randint(10, 24)), 'family': 'random history, fresh interpreter (%s)' % pre,
                          'build': rnd.choice(['expr', 'node']), 'restrict_arg': rnd.choice(['bool', 'int']), 'preamble': pre})
+    # large heaps: the same kind of history while 150-450 other diagrams over a superset of the variables stay alive
+    # (parent indexes of the terminals and of popular nodes get long; size-dependent paths of the unique table are taken)
+    for i in range(60 if q else 1500):
+        order = rnd.choice(orders)
+        extra = [v for v in ['a', 'b', 'c', 'd', 'e', 'f'] if v not in order]
+        border = list(order) + extra if rnd.random() < 0.5 else rnd.sample(list(order) + extra, len(order) + len(extra))
+        behs.append({'order': order, 'calls': expr_history(rnd, order, rnd.randint(12, 30)), 'family': 'random history over a large live heap',
+                     'build': rnd.choice(['expr', 'node']), 'restrict_arg': rnd.choice(['bool', 'int']),
+                     'ballast': {'order': border, 'n': rnd.choice([50, 100, 150]), 'seed': rnd.randrange(1 << 30)}})
     for b in behs:
         ops = [c['op'] for c in b['calls']]
         if ('release' in ops or 'park' in ops) and len(ops) > 6:
             ctx.nontrivial.add(json.dumps(b['calls']))
     events = finish(ctx, behs)
     ctx.note('histories', {'tlc_simulated': len(sim), 'random': len(behs) - len(sim)})
+    ctx.note('max_ballast_nodes', max([e.get('ballast_nodes', 0) for e in events]))
     ctx.note('max_live_nodes_seen', max(e['proj']['live'] for e in events if 'proj' in e))
     ctx.sample({'order': behs[0]['order'], 'calls': behs[0]['calls']})
     ctx.sample({'order': behs[-1]['order'], 'calls': behs[-1]['calls'], 'last_projection': events[-1]['proj']})
